@@ -18,6 +18,11 @@ class Transc (α : Type) where
   sqrt  : α → α
   pi    : α
 
+/-- `π` as used by the code (`math.pi`): a separate class so that purely rational kernels can be executed
+over `Rat` with the exact rational value of the double `math.pi`; all theorems hold for any positive value. -/
+class HasPi (α : Type) where
+  pi : α
+
 /-- Kahan's accurate `log1p` for doubles (core has no `Float.log1p`). -/
 def floatLog1p (x : Float) : Float :=
   let u := 1.0 + x
@@ -30,6 +35,10 @@ instance : Transc Float where
   tanh := Float.tanh
   sqrt := Float.sqrt
   pi := 3.141592653589793
+
+instance : HasPi Float := ⟨3.141592653589793⟩
+/-- the double nearest to π, exactly: 884279719003555 / 2^48 -/
+instance : HasPi Rat := ⟨(884279719003555 : Rat) / (281474976710656 : Rat)⟩
 
 /-! ### Exchange format: doubles travel as their IEEE bit pattern (decimal `UInt64`). -/
 
@@ -60,4 +69,22 @@ def parseRat? (s : String) : Option Rat :=
       if d == 0 then none else some ((n : Rat) / (d : Rat))
   | _ => none
 
+end JaxleyVerif
+
+namespace JaxleyVerif
+/-- nearest-ish double of a rational (scaled so that numerator and denominator fit the double range) -/
+def ratToFloat (q : Rat) : Float :=
+  let n := q.num.natAbs
+  let d := q.den
+  let ln := n.log2
+  let ld := d.log2
+  -- keep ~64 significant bits of each
+  let sn := if ln > 64 then ln - 64 else 0
+  let sd := if ld > 64 then ld - 64 else 0
+  let nf := Float.ofNat (n >>> sn)
+  let df := Float.ofNat (d >>> sd)
+  let r := (nf / df).scaleB ((sn : Int) - (sd : Int))
+  if q.num < 0 then -r else r
+
+def ratAbs (q : Rat) : Rat := if q < 0 then -q else q
 end JaxleyVerif
